@@ -34,7 +34,8 @@ def facts_of(p):
 
 
 def task(rng, i, form, inp, timing, stages, cancel=None, compose=False, line=None):
-    p = {"form": form, "inp": inp, "timing": timing, "stages": [list(s) for s in stages],
+    stages = [list(s) for s in stages]
+    p = {"form": form, "inp": inp, "timing": timing, "stages": stages,
          "d_in": rng.choice([0, 100, 100]), "d_inner": rng.choice([0, 0, 50, 100]),
          "early": rng.random() < 0.3, "cancel": cancel, "compose": compose,
          # variants that must be transparent to the laws: the input is an f_proxy of the future (f_ form), the
@@ -42,6 +43,12 @@ def task(rng, i, form, inp, timing, stages, cancel=None, compose=False, line=Non
          "proxy_input": bool(form == 1 and rng.random() < 0.25),
          "orig_cancelled_error": bool(inp == 1 and rng.random() < 0.25),
          "in_except": rng.random() < 0.25}
+    # the input fails with an exception deriving from BaseException only; not combined with an error_fn that re-raises
+    # it (an exception of that kind raised by USER code is not contained by anybody, the stdlib included) nor with the
+    # executor form (where the scripted callable itself would raise it on a worker)
+    if (inp == 1 and form == 1 and not p["orig_cancelled_error"] and rng.random() < 0.25
+            and all(sg[2] != RERAISE for sg in stages)):
+        p["orig_base_exception"] = True
     strat = ["random", rng.randrange(10 ** 9), 0.6] if i % 4 else ["pct", rng.randrange(10 ** 9), 3, 250]
     gran = "line" if (line if line is not None else i % 5 == 0) else "sync"
     return {"scen": "maplaws", "params": p, "strat": strat, "gran": gran, "facts": facts_of(p)}
